@@ -7,10 +7,11 @@ Import ListNotations.
 Open Scope string_scope.
 
 (* ---- every attribute / method used on self or on an operand resolves, except the recorded ones ---- *)
-Definition known_unresolved : list (string * string * string * string) :=
-  [ ("_ScaledPotentialOperator", "evaluation_points", "PotentialOperator", "points");
-    ("_SumPotentialOperator", "__init__", "PotentialOperator", "_is__compatible");
-    ("_SumPotentialOperator", "evaluation_points", "PotentialOperator", "points") ].
+Definition known_unresolved : list (string * string * string * string) := [].
+(* history: on the pinned tree (f71eeee) three names did not resolve, all in potential_operator.py:
+   _ScaledPotentialOperator.evaluation_points -> .points, _SumPotentialOperator.__init__ -> ._is__compatible,
+   _SumPotentialOperator.evaluation_points -> .points; repaired by b425e0a.  The list is empty now, so a re-introduced
+   typo breaks [resolution_sweep]. *)
 
 Definition row_eqb (a b : string * string * string * string) : bool :=
   let '(a1, a2, a3, a4) := a in let '(b1, b2, b3, b4) := b in
@@ -32,7 +33,8 @@ Qed.
 Lemma resolution_nonempty : (100 <= resolution_checked)%nat.
 Proof. vm_compute. lia. Qed.
 
-(* ---- the pinned tree: tables written by hand ---- *)
+(* ---- history: the tables of the pinned tree f71eeee, written by hand.  The lemmas below document what the typo did;
+   they are no longer part of props/C14.v ---- *)
 Definition ScaledPotential_pinned : pclass :=
   {| p_name := "_ScaledPotentialOperator"; p_guard := GFalse; p_body := TMul TAlpha (TEval SL);
      p_props := [("space", ["_op"; "space"]); ("component_count", ["_op"; "component_count"]);
@@ -103,3 +105,6 @@ Section Pinned.
          (fun o => pprop A patoms PB_pinned o "evaluation_points") = Err AttributeError.
   Proof. intros i alpha. reflexivity. Qed.
 End Pinned.
+
+Lemma all_names_resolve : unresolved = [].
+Proof. reflexivity. Qed.
